@@ -138,3 +138,17 @@ def compare_caches(c1, c2):
                 probs.append("%s[%d] = %s but a fresh evaluation at the coarse node gives %s" % (name, i, dag.show(vx, 100), dag.show(vy, 100)))
                 break
     return probs
+
+
+def make_gmgpolar(S, levels, threads=2):
+    """abstract GMGPolar object for the member functions that loop over a level (rhs build/discretisation, exact error,
+    extrapolated residual): levels_ holds the given Level objects, input functions are uninterpreted"""
+    gm = Obj("GMGPolar")
+    lv = opsdom.ObjVec("Level", "levels_")
+    lv.items = list(levels)
+    th = Arr("threads_per_level_", 8, elem="int", ints={i: threads for i in range(8)})
+    for k, v in (("levels_", lv), ("threads_per_level_", th), ("DirBC_Interior_", S.dirbc), ("source_term_", opsdom.AbstractInput("source")),
+                 ("boundary_conditions_", opsdom.AbstractInput("boundary")), ("exact_solution_", opsdom.AbstractInput("exact")),
+                 ("domain_geometry_", S.geom), ("density_profile_coefficients_", S.coef)):
+        gm.f[k] = Cell(v, k)
+    return gm
